@@ -121,14 +121,14 @@ func enumC14(env *engine.Env, yield func(any) bool) {
 		}
 	}
 	// verbatim: versions that must not be split reach every package unchanged
-	for _, v := range []string{"v1.2.3.4", "1.2.3.4", "2024.01.02", "1.2.x", "abc", "01.2.3", "V1.2.3", "1.2.3-rc_1"} {
+	for _, v := range []string{"v1.2.3.4", "1.2.3.4", "2024.01.02", "1.2.x", "abc", "01.2.3", "V1.2.3", "1.2.3-rc_1", "1.02.3", "2024.01.15", "v1.2.03", "1.2.3-rc1+git ", " v1.2", "1.2.3 "} {
 		for _, f := range Formats {
 			if !yield(C14Case{Part: "verbatim", A: VerCfg{Version: v, Schema: ""}, Why: f}) {
 				return
 			}
 		}
 	}
-	for _, v := range []string{"v1.2.3", "1.2.3-rc1+meta.5", "v2", "1.2"} {
+	for _, v := range []string{"v1.2.3", "1.2.3-rc1+meta.5", "v2", "1.2", "1.2-rc1", "1.2.3-4"} {
 		for _, f := range Formats {
 			if !yield(C14Case{Part: "verbatim", A: VerCfg{Version: v, Schema: "none"}, Why: f}) {
 				return
@@ -423,7 +423,8 @@ func checkC14(env *engine.Env, ci any) engine.Outcome {
 		}
 		out.Nontrivial = true
 		for k, want := range model.WantVersion(f, mc) {
-			if got, _ := pkg.Field(k); got != want {
+			// (blanks at the ends of a value do not survive a control file; they are not what is judged here)
+			if got, _ := pkg.Field(k); strings.TrimSpace(got) != strings.TrimSpace(want) {
 				out.Violations = append(out.Violations, engine.Violation{Sig: "version:verbatim:" + f,
 					Detail: fmt.Sprintf("format=%s version=%q schema=%q: the version is not split (schema none / not a semantic version) and must be used verbatim; %s says %q, expected %q", f, c.A.Version, c.A.Schema, k, got, want)})
 			}
